@@ -792,14 +792,17 @@ def urlencode_fn(
 ) -> str:
     """Implements the urlencode parser function."""
     arg0 = expander(args[0]) if args else ""
-    fmt = expander(args[1]) if len(args) > 1 else "QUERY"
+    fmt = expander(args[1]).strip().upper() if len(args) > 1 else "QUERY"
     url = arg0.strip()
     if fmt == "PATH":
         return urllib.parse.quote(url, safe="")
-    elif fmt == "QUERY":
-        return urllib.parse.quote_plus(url)
-    # All else in WIKI encoding
-    return wikiurlencode(url)
+    elif fmt == "WIKI":
+        # blanks become underscores (each of them), then as QUERY except
+        # that ;@$!*(),/~: are kept
+        return urllib.parse.quote(url.replace(" ", "_"), safe=";@$!*(),/~:")
+    # QUERY, also for an empty or unknown mode: PHP's urlencode(), which
+    # keeps only alphanumerics and -_. (Python would keep "~" as well)
+    return urllib.parse.quote_plus(url).replace("~", "%7E")
 
 
 def wikiurlencode(url: str) -> str:
